@@ -854,6 +854,17 @@ func main() {
 	} {
 		out.Case(op, exec(op), "seq/fixed", true)
 	}
+	// fixed lock-step scenarios: Available() observed while a Clear sits between its CAS and its
+	// decrement (transiently -1, theorem C08_cex_available_transient); last free id of a word raced for
+	// by three goroutines; release racing acquire of the same id
+	for _, op := range []string{
+		"conc 2 2 P G127 T c1 T g a S 0011111111",
+		"conc 2 3 P G126 T g T g T g S 012012012012012012012012",
+		"conc 2 2 P G127 T c64 g T g g S 010101010101010101010101",
+		"conc 4 2 P G40 T g r T g r S 0101010101010101",
+	} {
+		out.Case(op, exec(op), "conc/fixed", true)
+	}
 	for i := 0; i < 1500*mult; i++ {
 		genSeq(r, out)
 	}
